@@ -597,6 +597,10 @@ func (g *Gen) between() {
 		}
 	}
 	if roll(b.BadLoad) {
+		if !b.SortedWrites && g.cur == g.latest && r.Chance(1, 2) {
+			// with uncommitted writes pending: they belong to the next version
+			g.writes()
+		}
 		g.emit(Step{Op: OpBadLoad, N: []int64{0, g.first - 1, g.latest + 1, g.latest + 5}[r.Intn(4)]})
 	}
 	if roll(b.Reads) {
